@@ -351,3 +351,37 @@ def allocate_physical(occupied, k):
         if ok:
             return want
         n += 1
+
+
+def parse_space_multi(out):
+    """`space d1 d2 ...` -> (list of (selector, gap list, total), summary dict or None)"""
+    blocks = []
+    summary = {}
+    lines = out.split(b'\n')
+    i = 0
+    cur = None
+    while i < len(lines):
+        line = lines[i]
+        m = re.match(rb'^Gap sizes on disc (\S+):$', line)
+        if m:
+            try:
+                gl = [int(t, 16) for t in lines[i + 1].split()]
+            except (ValueError, IndexError):
+                return None
+            cur = [m.group(1).decode(), gl, None]
+            blocks.append(cur)
+            i += 2
+            continue
+        m = re.match(rb'^Total space free = ([0-9A-Fa-f]+) sectors', line)
+        if m and cur is not None:
+            cur[2] = int(m.group(1), 16)
+        m = re.match(rb'^Total space free in volume\s+(\S+) = ([0-9A-Fa-f]+) sectors', line)
+        if m:
+            summary[m.group(1).decode()] = int(m.group(2), 16)
+        m = re.match(rb'^Total space free in all volumes = ([0-9A-Fa-f]+) sectors', line)
+        if m:
+            summary['*'] = int(m.group(1), 16)
+        i += 1
+    if any(b[2] is None for b in blocks):
+        return None
+    return blocks, summary
